@@ -343,7 +343,8 @@ def cfg_checks(ctx, binp, spans):
         if not rt["json1_roundtrip"]:
             back = lossy_fields(rt)
             ctx.violation("S5", "JSON serialisation of the exported configuration is not loss-free: serde_json::from_str(to_string(cfg)) != cfg "
-                          f"(fields with more than 15 significant digits: {back})", {"kind": "json_lossy", "which": "exported"},
+                          f"(fields with more than 15 significant digits: {back})",
+                          {"kind": "json_lossy", "which": "exported", "field": (back[0].rsplit(".", 1)[-1] if back else "?")},
                           dict(detail, exported=rt["json1"], long_fields=back))
         if not o.get("spdc_json_equals_config_json", True):
             ctx.violation("S5", "serialising the setup differs from serialising its configuration", {"kind": "spdc_serde"}, detail)
